@@ -31,3 +31,32 @@ def run(ctx):
     ctx.nontrivial += n
     ctx.extra["reread_vs_older_read_scenarios"] = n
     ctx.rule += "; plus %d scenarios {waiting request kind} x {reading request kind} in which a read executed before the lock holder's write is delivered after it" % n
+
+    # The provider processes a grant and the back-channel connection dies before a response byte (keep-alives ON in this driver only):
+    # within ONE request, and without a server-error answer in between, a refresh-token value is presented once. (A LATER request
+    # presenting the value again is not judged: no answer ever reached wonderwall, the stored pair is still the old one.)
+    pre = ctx.path("connloss")
+    out, dt = vf.run_driver(["connloss", "-out", pre, "-seed", str(ctx.seed), "-tier", ctx.tier])
+    ctx.timings["connloss"] = round(dt, 2)
+    n = dropped = 0
+    for line in open(pre + ".obs"):
+        d = json.loads(line)
+        if d.get("kind") != "connloss":
+            continue
+        n += 1
+        dropped += d["connections_dropped"]
+        first = d["presented"][:d["presentations_by_first_request"]]
+        for a, b in zip(first, first[1:]):
+            if a["rt"] == b["rt"] and a["answer"] not in ("5xx",):
+                ctx.violation("c07-rt-presented-twice-by-one-request", "one request presented a refresh-token value to the provider again although the provider had "
+                              "not answered with a server error (the connection was lost after the provider had processed the grant)", d)
+                break
+        if not d["all_done"]:
+            ctx.violation("c07-request-stuck", "a request never completed", d)
+    ctx.evals += n
+    ctx.nontrivial += dropped
+    ctx.extra["connection_lost_after_grant_scenarios"] = n
+    ctx.extra["connection_lost_after_grant_drops"] = dropped
+    if n and dropped < n:
+        raise vf.InfraError("connloss: %d scenarios but only %d dropped connections (the fault was not exercised)" % (n, dropped))
+    ctx.rule += "; plus %d scenarios in which the provider processes the grant and the kept-alive (reused or fresh) connection is lost before a response byte" % n
